@@ -40,6 +40,9 @@ let pagescript (a : string list) : string =
       match String.split_on_char ':' o with
       | ["setb"; h] -> (match page_set_bytes ps !st (bytes_of_tok h) with POk p -> st := p; "ok" | PErr e -> perr_string e)
       | ["load"] -> (match page_load ps !st with POk p -> st := p; "ok" | PErr e -> perr_string e)
+      | ["markdirty"] -> (match page_mark_dirty ps !st with
+                          | POk p -> st := p; (match p.pg_bytes with Some _ -> "ok:buf=1" | None -> "ok:buf=0")
+                          | PErr e -> perr_string e)
       | ["mod"; off; h] -> (match page_modify !st (nat_of_int (int_of_string off)) (bytes_of_tok h) with POk p -> st := p; "ok" | PErr e -> perr_string e)
       | ["bytes"] -> (match page_bytes !st with POk b -> tok_of_bytes b | PErr e -> perr_string e)
       | ["flush"] -> (match page_flush !st with
